@@ -196,7 +196,10 @@ def rule_error_pairing(col, facts):
                 found = True
                 col.check("PAIR-sign", "parse_sign:Ok(true)", has and minus,
                           "Ok(true) (negative) is returned on a path without `T::IS_SIGNED` and byte == '-': %s" % [(show(e), p) for _d, e, p in conds], f.loc(st[3]))
-    col.check("PAIR-sign", "parse_sign:shape", found, "no Ok(true) return found in parse_sign", f.loc())
+    if not found:
+        # (the negative result is not returned as the literal `Ok(true)`: e.g. `Ok(is_minus)` with
+        #  `is_minus = IS_SIGNED && byte == b'-'` - this reader does not follow that; not decided)
+        col.assumed("not-applied", "PAIR-sign:parse_sign", "no literal Ok(true) return in parse_sign: the sign result is computed in another shape, PAIR-sign not decided", f.loc())
 
 
 def rule_flags_enforced(col, facts):
